@@ -281,7 +281,9 @@ func TestFiles(t *testing.T) {
 		if err != nil {
 			evid.Infra(rt, "generator: %v", err)
 		}
-		evid.Case(f.Class, f.NonTrivial, f.Kind+"|"+f.Mask, map[string]any{"kind": f.Kind, "mask": f.Mask, "len": len(f.Bytes)})
+		evid.CaseFn(f.Class, f.NonTrivial, f.Kind+"|"+f.Mask, func() any {
+			return map[string]any{"kind": f.Kind, "element_presence_mask": f.Mask, "len": len(f.Bytes), "file": evid.Hex(f.Bytes), "expected_view": f.View}
+		})
 		evid.Count("kind/"+f.Kind, 1)
 		report(rt, checkFile(f.Kind, f.Bytes, f.View), f.Kind, f.Bytes, f.Mask)
 	})
@@ -338,7 +340,9 @@ func TestExternalSOD(t *testing.T) {
 			}
 		}
 		ext := ldsgen.ExternalSOD(f.Bytes, v)
-		evid.Case(ext.Class, true, f.Mask, nil)
+		evid.CaseFn(ext.Class, true, f.Mask, func() any {
+			return map[string]any{"kind": "SOD", "mask": f.Mask, "len": len(ext.Bytes), "file": evid.Hex(ext.Bytes)}
+		})
 		report(rt, checkFile("SOD", ext.Bytes, ext.View), "SOD", ext.Bytes, f.Mask)
 		// the library's own lookup agrees with the list
 		sod, err := document.NewSOD(f.Bytes)
